@@ -104,7 +104,7 @@ func (s *RefStore) FitsAfter(extra float64, g int) bool {
 	if g < -45 {
 		return false
 	}
-	return (s.Total()+extra+1)*math.Ldexp(1, -g) < (1 << 50)
+	return (s.Total()+extra+1)*math.Ldexp(1, -g) < math.Ldexp(1, BudgetBits)
 }
 
 func (s *RefStore) Add(index int, w float64) {
